@@ -97,6 +97,7 @@ def addLine (s : Scn) (toks : List String) : Scn :=
     let src := (look kv "src").toNat?.getD 0
     { s with states := s.states.modify src fun sd => { sd with trans := sd.trans ++ [tr] } }
   | "subject" :: "cls" :: _ => { s with subjects := s.subjects.push .cls }
+  | "subject" :: "unset" :: _ => { s with subjects := s.subjects.push .unset }
   | "subject" :: "inst" :: v :: _ => { s with subjects := s.subjects.push (.inst (dec v)) }
   | "subject" :: "inst" :: [] => { s with subjects := s.subjects.push (.inst "") }
   | _ => s
@@ -117,6 +118,7 @@ def itemLine (s : Scn) : Item → String
 def subjectLine : Subject → String
   | .cls => "sub cls"
   | .inst v => s!"sub inst {enc v}"
+  | .unset => "sub unset"
 
 def runScn (s : Scn) : List String :=
   let m : Machine := ⟨s.states.toList⟩
